@@ -416,9 +416,30 @@ func checkLockPairing(c *Ctx, r *Rec, rule string, info *types.Info, fd *ast.Fun
 				stop:     func(x ast.Node) bool { return mutexOp(info, env, x, key) == "unlock" },
 				goalExit: func(kind int, _ *cfg.Block) bool { return kind == exitReturn },
 			})
+			// an explicit panic raised while the mutex is held (and not released by a defer) leaves it
+			// locked for good: the caller may recover, the next call on the object blocks forever
+			leak3, w3 := false, ast.Node(nil)
+			if !deferred {
+				leak3, w3 = g.exists(pathQuery{
+					from: point{b, i + 1},
+					stop: func(x ast.Node) bool { return mutexOp(info, env, x, key) == "unlock" },
+					goalNode: func(x ast.Node) bool {
+						found := false
+						inspectNoLit(x, func(y ast.Node) bool {
+							if call, ok := y.(*ast.CallExpr); ok && isBuiltinCall(info, call, "panic") {
+								found = true
+							}
+							return true
+						})
+						return found
+					},
+				})
+			}
 			switch {
 			case deferred:
 				r.ok(rule, construct, c.pos(n.Pos()), "released by a deferred Unlock")
+			case leak3:
+				r.fail(rule, construct, c.pos(n.Pos()), fmt.Sprintf("a path from this Lock reaches the panic at %s without Unlock: a caller that recovers from the panic finds the object locked for ever", c.pos(w3.Pos())))
 			case leak2:
 				at := "the end of the function"
 				if w2 != nil {
@@ -572,4 +593,30 @@ func checkPooledEscape(c *Ctx, r *Rec, rule string) {
 		r.check(bad == "", rule, name, c.pos(f.Pos()), "what goes back to the pool does not leave the function", bad)
 	}
 	r.count("functions that return objects to a sync.Pool", n)
+}
+
+// checkTypeLockPairing: a collection type that guards its state with a mutex field releases it
+// on every way out of every method, the panics it raises itself included.
+func checkTypeLockPairing(c *Ctx, r *Rec, rule string, n *types.Named) {
+	if n == nil {
+		return
+	}
+	st := structOf(n)
+	if st == nil {
+		return
+	}
+	role := c.roleOf(n.Obj().Pkg())
+	info := c.info(role)
+	for i := 0; i < st.NumFields(); i++ {
+		f := st.Field(i)
+		if !isSyncType(f.Type()) || !strings.HasSuffix(types.TypeString(f.Type(), nil), "Mutex") {
+			continue
+		}
+		ms := c.methodsOf(n)
+		for _, name := range sortedKeys(ms) {
+			if ms[name].Body != nil {
+				checkLockPairing(c, r, rule, info, ms[name], ms[name].Body, objKey(f), f.Name())
+			}
+		}
+	}
 }
